@@ -43,6 +43,9 @@ var c18Plain = errors.New("plain failure, not a status")
 
 var c18Err = status.Error(codes.PermissionDenied, "boom ✓")
 
+// set by c18Edges: builds a google.api.HttpBody of the fixture it probes
+var c18HttpBody func(data []byte) proto.Message
+
 func c18Specs(svc string, withRules bool) []*MethodSpec {
 	str := func(m protoreflect.Message, f string) string {
 		return m.Get(m.Descriptor().Fields().ByName(protoreflect.Name(f))).String()
@@ -148,6 +151,14 @@ func c18Specs(svc string, withRules bool) []*MethodSpec {
 		{Service: svc, Name: "SS", In: "Req", Out: "Reply", ServerStream: true, Stream: ss},
 		{Service: svc, Name: "CS", In: "Req", Out: "Reply", ClientStream: true, Stream: cs},
 		{Service: svc, Name: "BD", In: "Req", Out: "Reply", ClientStream: true, ServerStream: true, Stream: bd},
+		// a reply that is a google.api.HttpBody: written as raw bytes over HTTP, still one sent message
+		{Service: svc, Name: "HB", In: "Req", Out: "google.api.HttpBody", Unary: func(ctx context.Context, in *dynamicpb.Message) (proto.Message, error) {
+			if c18HttpBody == nil {
+				return nil, status.Error(codes.Internal, "no HttpBody constructor")
+			}
+			n := int(in.Get(in.Descriptor().Fields().ByName("i32")).Int())
+			return c18HttpBody(bytes.Repeat([]byte{'d'}, n)), nil
+		}},
 	}
 	if withRules {
 		specs[0].Rule = postRule("/c18/u", "*")
@@ -157,6 +168,7 @@ func c18Specs(svc string, withRules bool) []*MethodSpec {
 		specs[2].Rule.AdditionalBindings = []*annotations.HttpRule{customRule("WEBSOCKET", "/c18/wss/{name}", "")}
 		specs[3].Rule = postRule("/c18/cs", "*")
 		specs[4].Rule = customRule("WEBSOCKET", "/c18/ws", "*")
+		specs[5].Rule = getRule("/c18/hb/{i32}")
 	}
 	return specs
 }
@@ -525,7 +537,7 @@ func newC18Env(opts string, back *grpc.ClientConn) (*c18Env, error) {
 }
 
 func runC18(c *Ctx) {
-	c.Rule("every protocol (HTTP/JSON transcoding incl. a body-less GET, gRPC through a real h2c server, gRPC-web frames, WebSocket) x local (RegisterService) and proxied (RegisterConn) methods x unary / server / client / bidi streams x handler outcomes (ok, error before any reply, error after replies) x message counts 0..4, run on five muxes: no options, recording interceptors, interceptors that replace the result, a recording stats handler, both. Checked per RPC: the interceptor of the right kind ran exactly once with the full method name and the method's streaming flags; the stats events of that RPC are tag, in-header, begin[flags], then one in-payload per message the handler received and one out-payload per message it sent (out-header before the first), out-trailer, and exactly one end, last, carrying the handler's error, all server-side; the client-visible outcome is the same with and without options, and with a replacing interceptor it is the interceptor's result. The event list is also compared with the Lean model of the serving paths. Non-trivial: every case; distinct by case+options.")
+	c.Rule("every protocol (HTTP/JSON transcoding incl. a body-less GET, gRPC through a real h2c server, gRPC-web frames, WebSocket) x local (RegisterService) and proxied (RegisterConn) methods x unary / server / client / bidi streams x handler outcomes (ok, error before any reply, error after replies) x message counts 0..4, run on six muxes: no options, recording interceptors, interceptors that replace the result by an error, a unary interceptor that returns another reply object, a recording stats handler, both. Checked per RPC: the interceptor of the right kind ran exactly once with the full method name and the method's streaming flags; the stats events of that RPC are tag, in-header, begin[flags], then one in-payload per message the handler received and one out-payload per message it sent (out-header before the first), out-trailer, and exactly one end, last, carrying the handler's error, all server-side; the client-visible outcome is the same with and without options, and with a replacing interceptor it is the interceptor's result. The event list is also compared with the Lean model of the serving paths. Non-trivial: every case; distinct by case+options.")
 	// the backend
 	fixtureDeferRegistration = true
 	backFx, err := NewFixture(c18Specs("Back", false), nil)
@@ -546,7 +558,7 @@ func runC18(c *Ctx) {
 	defer bcc.Close()
 
 	envs := map[string]*c18Env{}
-	for _, o := range []string{"none", "icept", "icept-replace", "stats", "stats+icept"} {
+	for _, o := range []string{"none", "icept", "icept-replace", "icept-rewrite", "stats", "stats+icept"} {
 		e, err := newC18Env(o, bcc)
 		if err != nil {
 			c.SpecFail("fixture", "c18 "+o, err.Error(), "", "C18/fixture", "fixture")
@@ -564,6 +576,18 @@ func runC18(c *Ctx) {
 	replaced := replacedSt.Err()
 	envs["icept-replace"].ri.Transform = func(resp interface{}, err error) (interface{}, error) { return nil, replaced }
 	envs["icept-replace"].ri.TransformErr = func(err error) error { return replaced }
+	// … and one that answers a successful unary call with ANOTHER message object (a rewritten copy)
+	envs["icept-rewrite"].ri.Transform = func(resp interface{}, err error) (interface{}, error) {
+		pm, ok := resp.(proto.Message)
+		if err != nil || !ok || pm == nil {
+			return resp, err
+		}
+		cp := proto.Clone(pm)
+		if fd := cp.ProtoReflect().Descriptor().Fields().ByName("text"); fd != nil && fd.Kind() == protoreflect.StringKind {
+			cp.ProtoReflect().Set(fd, protoreflect.ValueOfString("rewritten:"+cp.ProtoReflect().Get(fd).String()))
+		}
+		return cp, nil
+	}
 
 	var cases []c18Case
 	for _, p := range []string{"http", "grpc", "web", "ws"} {
@@ -604,7 +628,7 @@ func runC18(c *Ctx) {
 		for _, cs := range cases {
 			outs := map[string]c18Outcome{}
 			skip := false
-			for _, o := range []string{"none", "icept", "stats", "stats+icept", "icept-replace"} {
+			for _, o := range []string{"none", "icept", "stats", "stats+icept", "icept-replace", "icept-rewrite"} {
 				e := envs[o]
 				e.st.Reset()
 				e.ri.Reset()
@@ -687,6 +711,12 @@ func runC18(c *Ctx) {
 			for _, o := range []string{"icept", "stats", "stats+icept"} {
 				if got, ok := outs[o]; ok && got.String() != base.String() {
 					c.SpecFail("outcome", cs.String(), o+": "+got.String(), "as without options: "+base.String(), "C18/"+cs.proto_+"/options-change-outcome/"+o, "installing interceptors / a stats handler changed what the client gets")
+				}
+			}
+			// ---- a unary interceptor that returns another message object: the client gets THAT message
+			if got, ok := outs["icept-rewrite"]; ok && (cs.method == "U" || cs.method == "G") && cs.mode == "ok" {
+				if !strings.Contains(strings.Join(got.replies, " "), "rewritten:") {
+					c.SpecFail("outcome", cs.String()+" options=icept-rewrite", got.String(), "the reply the interceptor returned (text rewritten:…)", "C18/"+cs.proto_+"/interceptor-reply-ignored/"+cs.svc, "the client got the handler's reply, not the message the unary interceptor returned")
 				}
 			}
 			// ---- what the interceptor returns is what the client gets
@@ -830,6 +860,26 @@ func c18Edges(c *Ctx, e *c18Env) {
 			if why := c18Grammar(evs, endErrs, "/"+fxPkg+".Svc/G", false, false, 1, 1, false); why != "" {
 				c.SpecFail("stats", name, strings.Join(evs, " "), "tag in-header begin, one in-payload, one out-payload, end", "C18/edge/"+c18Key(why), why)
 			}
+		}
+	}
+	// a google.api.HttpBody reply over HTTP (raw bytes on the wire) is one sent message like any other
+	c18HttpBody = func(data []byte) proto.Message {
+		hb := fx.NewMsg("google.api.HttpBody")
+		hb.Set(hb.Descriptor().Fields().ByName("content_type"), protoreflect.ValueOfString("application/x-c18"))
+		hb.Set(hb.Descriptor().Fields().ByName("data"), protoreflect.ValueOfBytes(data))
+		return hb
+	}
+	for _, n := range []int{0, 1, 4096} {
+		name := fmt.Sprintf("http: google.api.HttpBody reply of %d bytes", n)
+		e.st.Reset()
+		rec, pn := serveOn(fx.Mux, httptest.NewRequest("GET", fmt.Sprintf("/c18/hb/%d", n), nil))
+		evs, endErrs := e.st.Snapshot()
+		c.Eval("edge", name, true)
+		c.Class("edge")
+		if pn != nil || rec.Code != 200 || rec.Body.Len() != n {
+			c.SpecFail("stats", name, fmt.Sprintf("%d, %d bytes, panic=%v", rec.Code, rec.Body.Len(), pn), fmt.Sprintf("200 and %d bytes", n), "C18/edge/httpbody-reply", "the HttpBody reply does not arrive")
+		} else if why := c18Grammar(evs, endErrs, "/"+fxPkg+".Svc/HB", false, false, 1, 1, false); why != "" {
+			c.SpecFail("stats", name, strings.Join(evs, " "), "tag in-header begin, one in-payload, one out-payload, end", "C18/edge/httpbody-reply/"+c18Key(why), why)
 		}
 	}
 	// a WebSocket binding without a body: the one message the handler receives is built from the URL —
